@@ -25,7 +25,7 @@ func init() {
 			}
 			return 2400
 		},
-		Rule: "case = generated tree (all shapes, zero/absent lengths, present/absent supports) x 3 metrics, an average over 1..6 trees (one case in twenty: over 100..300 trees), and thresholds equal to a branch length, 1 ulp around it, below all, above all; oracle = model path sums and union-find components; every 8th case through gotree matrix / gotree brlen cut; non-trivial = tree has >= 4 tips and an inner branch, and some threshold gives between 2 and n-1 bags; distinct by text",
+		Rule: "case = generated tree (all shapes, zero/absent lengths, present/absent supports) x 3 metrics, an average over 1..6 trees (one case in twenty: over 100..300 trees; tree identifiers 0..n-1, all 0, every other one or 1..n), and thresholds equal to a branch length, 1 ulp around it, below all, above all; oracle = model path sums and union-find components; every 8th case through gotree matrix / gotree brlen cut; non-trivial = tree has >= 4 tips and an inner branch, and some threshold gives between 2 and n-1 bags; distinct by text",
 		Assumptions: []string{
 			"the convention for an absent support in the 'boot' metric is estimated from the matrix itself (one pair of sibling tips): only consistency is asserted",
 			"thresholds <= 0 only on trees without absent lengths (sentinel ambiguity); matrix entries compared to 1e-9 relative (re-association), mean to 1e-12",
